@@ -71,7 +71,7 @@ pub fn generate(rng: &mut Rng, tier: Tier) -> Scn {
                 t0.insert(at, LOp::SetConfig { v: rng.below(nconf as u64) as u32 });
                 t0.insert(at, LOp::Perturb { level: rng.range(0, 5) as u8 });
             } else {
-                t0.insert(at, LOp::SecondInit { v: rng.below(nconf as u64) as u32 });
+                t0.insert(at, LOp::SecondInit { v: rng.below(nconf as u64) as u32, bomb: rng.chance(1, 3) });
             }
         }
         threads.push(t0);
@@ -161,7 +161,7 @@ pub fn execute(scn: &Scn, opts: &ExecOpts) -> Outcome {
     }
     let scratch = Scratch::new("g");
     let sink = Arc::new(Sink::default());
-    let lscn = l::Scn { configs: scn.configs.clone(), threads: vec![], prop: "C02".into(), file_v0: false, broken: vec![], sched_seed: 0, policy: scn.policy.clone() };
+    let lscn = l::Scn { configs: scn.configs.clone(), threads: vec![], prop: "C02".into(), file_v0: false, broken: vec![], handler_logs: None, sched_seed: 0, policy: scn.policy.clone() };
     let file_dir = if scn.init_path == 2 { Some(scratch.root.clone()) } else { None };
     let sh = l::new_shared(lscn, sink.clone(), true, file_dir.clone());
     let sched = opts.sched.clone().unwrap_or(Sched::Prng { seed: scn.sched_seed, policy: scn.policy.clone() });
@@ -214,11 +214,19 @@ pub fn execute(scn: &Scn, opts: &ExecOpts) -> Outcome {
                     }
                     match op {
                         LOp::Log { n, target, level } => l::do_log(&sh, RecId { tid, n }, &target, level),
-                        LOp::SecondInit { v } => {
+                        LOp::SecondInit { v, bomb } => {
                             // fresh stubs (tag 9000+v) that must never see a record
-                            let rejected = log4rs::init_config(l::build_config(&configs[v as usize], 9000 + v, &sh));
-                            if rejected.is_ok() {
-                                sh.sink.fail("C02", "C02-E0", "second-init-accepted", "a second initialisation attempt was accepted".into());
+                            let extra: Option<Box<dyn log4rs::append::Append>> = if bomb { Some(Box::new(l::Bomb)) } else { None };
+                            let cfg = l::build_config_with(&configs[v as usize], 9000 + v, &sh, extra);
+                            // the caller survives a panicking destructor of a component it handed over
+                            let rejected = std::panic::catch_unwind(std::panic::AssertUnwindSafe(|| log4rs::init_config(cfg)));
+                            match rejected {
+                                Ok(Ok(_)) => sh.sink.fail("C02", "C02-E0", "second-init-accepted", "a second initialisation attempt was accepted".into()),
+                                Ok(Err(_)) => {}
+                                Err(_) => {
+                                    let _ = kernel::take_last_panic();
+                                    sh.sink.probe("rejected_initialisations_with_panicking_destructor", 1);
+                                }
                             }
                             sh.sink.probe("rejected_second_initialisations", 1);
                             let cur = *current.lock().unwrap();
